@@ -25,4 +25,11 @@ func init() {
 		Real:        append([]string{"vm.Promise", "vm.ThreadPool / threadWorker / executeBytecodePromise", "AWAIT / AWAIT_RESULT / AWAIT_SYNC", "Kernel#timeout"}, realAll...),
 		Stub:        stubAll,
 	}
+	engineTable["C15"] = engineInfo{
+		Engine:      "C15",
+		Rule:        "case = generated Elk program x pool 1-4 x one schedule. Family A (70%): 1-5 generated bodies over Int locals, arithmetic, if, bounded while, early return, throw, do/catch around throwing helpers, each emitted as def / def * / async def and called on 3 inputs (async instances all in flight together); bodies with yield statements are emitted as a generator and as a plain twin appending to a list, the generator is drained with next until stop_iteration and probed once more. Family B (30%): promise DAG programs of C16 at queue >= N. Oracle: printed lines equal the independent big-integer reference evaluator's (so the three variants agree, yields come in order then the end signal, each promise settles once), no Go panic, no deadlock. Non-trivial: >= 2 context switches; distinct: hash of (source, pool, queue, schedule trace)",
+		Assumptions: commonAssumptions,
+		Real:        append([]string{"vm.Generator / CallGeneratorNext", "callBytecodePromise", "vm.Promise settlement", "vm.ThreadPool"}, realAll...),
+		Stub:        stubAll,
+	}
 }
